@@ -173,14 +173,19 @@ def timing(op, with_default, alias):
         body = {'set_key': 'x[3] = i', 'set_key_idx': f'x[1][i % {N}] = i', 'modify_key': 'x[2] .= (\\_ -> i)', 'modify_key_idx': f'x[1][i % {N}] += 1',
                 'drop_key': 'x[1] append= i', 'remove_key': 'x[3] = i; remove x[3]'}[op]
         return mk + al + f'for (i <- 0 til {Kn}) {body}; len(x)'
-    return {'timing': {'small': prog(10, 6000), 'base': prog(30000, 0), 'big': prog(30000, 6000), 'ratio': 5}, 'program': None}
+    return {'timing': {'small': prog(10, 6000), 'base': prog(30000, 0), 'big': prog(30000, 6000), 'ratio': 5, 'metric': 'alloc'}, 'program': None}
 
 # ------------------------------------------------------------------------------------------------ string arm of set_index
 def sobj(bs): return Adt('Obj', 'Seq', [Adt('Seq', 'String', [RcV(RcObj(Seq([z3.IntVal(b) for b in bs])))])])
 def run_str(item, ob, mode):
-    alias, rep, vkind = item
+    alias, rep, vkind = item[:3]; bkind = item[3] if len(item) > 3 else 'ascii'
     E = eng(); I = z3.Int('i'); f_set = find_fn(E, 'set_index')
-    base = [97, 98, 99]
+    base = [97, 98, 99] if bkind == 'ascii' else [104, 195, 169, 33]          # 'abc' / 'hé!' (strings are byte-indexed: é occupies bytes 1 and 2)
+    btext = bytes(base).decode('utf-8'); n = len(base)
+    def utf8ok(bs):
+        try: bytes(bs).decode('utf-8'); return True
+        except UnicodeDecodeError: return False
+    def replaced(k): return [120 if q == k else b for q, b in enumerate(base)]
     val = {'byte': sobj([120]), 'two': sobj([120, 121]), 'mb': sobj([195, 169]), 'num': num(5), 'none': None}[vkind]      # 'mb': one character, two bytes ('é')
     def run():
         if rep == 'Small': E.assume(in_i64(I))
@@ -193,12 +198,12 @@ def run_str(item, ob, mode):
         i = mval(model, I); L = fmt_big(i) if rep == 'Big' else fmt_int(i)
         v = {'byte': "'x'", 'two': "'xy'", 'mb': "'\\xc3\\xa9' then utf8_encode then utf8_decode" if False else "'é'", 'num': '5'}.get(vkind)
         if v is None: return None
-        n = 3; p = i if 0 <= i < n else (i + n if -n <= i < 0 else None)
-        s = 'abc'
-        if vkind == 'byte' and p is not None and ISZ[0] <= i <= ISZ[1]: s = s[:p] + 'x' + s[p + 1:]
-        return {'program': f"x := 'abc'; y := x; try x[{L}] = {v} catch _ -> null; [x, y]", 'expect': {'equals': f'OK ["{s}", "abc"]'}}
+        p = i if 0 <= i < n else (i + n if -n <= i < 0 else None)
+        s = btext
+        if vkind == 'byte' and p is not None and ISZ[0] <= i <= ISZ[1] and utf8ok(replaced(p)): s = bytes(replaced(p)).decode('utf-8')
+        return {'program': f"x := '{btext}'; y := x; try x[{L}] = {v} catch _ -> null; [x, y]", 'expect': {'equals': f'OK ["{s}", "{btext}"]'}}
     for pc, kind, res, lg in E.explore(run):
-        ob.paths += 1; name = f'set_index string alias={alias} rep={rep} value={vkind}'
+        ob.paths += 1; name = f'set_index string({bkind}) alias={alias} rep={rep} value={vkind}'
         pref = [[z3.And(I >= -5, I <= 5)]]
         if kind == 'panic': ob.panic(name + ' panic-free', pc, res, replay=lambda m: dict(replay(m), expect={'not_panic': 1}) if replay(m) else None, cls=f'{mode}/string set_index/panic', prefer=pref); continue
         if kind != 'ok': ob.missing(name, f'{kind}: {res}'); continue
@@ -207,12 +212,13 @@ def run_str(item, ob, mode):
             ob.check(name + ' returns a value or an error', pc, z3.BoolVal(True), replay=replay, cls='C14/string set_index/result'); ob.witness(r.variant); continue
         if mode == 'C01':
             ob.check(name + ' alias unchanged', pc, z3.BoolVal(al is None or al == ('String', tuple(base))), replay=replay, cls='C01/string set_index/alias-changed', prefer=pref)
-            v0, p0 = z_norm(I, 3); valid = z3.And(in_isz(I), v0)
+            v0, p0 = z_norm(I, n); valid = z3.And(in_isz(I), v0)
+            bad = [k for k in range(n) if not utf8ok(replaced(k))]          # byte positions whose replacement is not valid UTF-8: an error, string unchanged
             if r.variant == 'Ok' and vkind == 'byte':
-                hit = [k for k in range(3) if after == ('String', tuple(120 if q == k else b for q, b in enumerate(base)))]
-                goal = z3.And(valid, p0 == hit[0]) if len(hit) == 1 else z3.BoolVal(False)
+                hit = [k for k in range(n) if after == ('String', tuple(replaced(k)))]
+                goal = z3.And(valid, p0 == hit[0], z3.BoolVal(hit[0] not in bad)) if len(hit) == 1 else z3.BoolVal(False)
             elif r.variant == 'Ok': goal = z3.BoolVal(vkind == 'none' and after == ('String', tuple(base)))
-            else: goal = z3.And(z3.BoolVal(after == ('String', tuple(base))), z3.Not(valid) if vkind == 'byte' else z3.BoolVal(True))
+            else: goal = z3.And(z3.BoolVal(after == ('String', tuple(base))), z3.Or(z3.Not(valid), *[p0 == k for k in bad]) if vkind == 'byte' else z3.BoolVal(True))
             ob.check(name + f' target ({r.variant})', pc, goal, replay=replay, cls='C01/string set_index/target', prefer=pref, sample='one byte replaced at the normalised index, or the string is unchanged on error')
             ob.witness(r.variant)
         else:
@@ -230,6 +236,7 @@ def items_for(tier, seed):
     for alias in (False, True):
         for rep in ('Small', 'Big'):
             for vk in ('byte', 'two', 'mb', 'num', 'none'): items.append(('str', (alias, rep, vk)))
+            items.append(('str', (alias, rep, 'byte', 'multibyte')))
     return items
 
 def run_shape(item, ob, mode):
